@@ -130,7 +130,12 @@ ELEM = {SECLIST: SECTION, STRLIST: STR}
 LIST_OF = {SECTION: SECLIST, STR: STRLIST}
 
 
+EXTRA_COQ_TYPES = {}      # type name -> Coq type, for the types a sibling translator adds (translate_detect2.py)
+
+
 def coq_type(t):
+    if t in EXTRA_COQ_TYPES:
+        return EXTRA_COQ_TYPES[t]
     if is_opt(t):
         return "option (%s)" % coq_type(t[1])
     if is_tup(t):
